@@ -37,8 +37,13 @@ structure St where
   konly : Bool := false           -- only a key notifier
   vonly : Bool := false           -- only a value notifier
 
-def fmtPair (p : K × V) : String := s!"{p.1.1}:k{p.1.2}:v{p.2}"
-def fmtLog (d : List (K × V)) : String := "[" ++ " ".intercalate (d.map fun p => s!"k{p.1.2} v{p.2}") ++ "]"
+/-- object ids from `nullBase` on stand for the NULL pointer (a legal key and a legal value): the harness cannot tell two
+    NULLs apart, so they all print as `N` -/
+def nullBase : Nat := 1000000
+def idStr (i : Nat) : String := if i ≥ nullBase then "N" else toString i
+
+def fmtPair (p : K × V) : String := s!"{p.1.1}:k{idStr p.1.2}:v{idStr p.2}"
+def fmtLog (d : List (K × V)) : String := "[" ++ " ".intercalate (d.map fun p => s!"k{idStr p.1.2} v{idStr p.2}") ++ "]"
 
 partial def fmtShape : BT K V → String
   | .nil => "."
@@ -48,8 +53,8 @@ partial def fmtShape : BT K V → String
 def fmtLogP (mode : Nat) (d : List (K × V)) : String :=
   match mode with
   | 1 => "[]"
-  | 2 => "[" ++ " ".intercalate (d.map fun p => s!"k{p.1.2}") ++ "]"
-  | 3 => "[" ++ " ".intercalate (d.map fun p => s!"v{p.2}") ++ "]"
+  | 2 => "[" ++ " ".intercalate (d.map fun p => s!"k{idStr p.1.2}") ++ "]"
+  | 3 => "[" ++ " ".intercalate (d.map fun p => s!"v{idStr p.2}") ++ "]"
   | _ => fmtLog d
 
 def sd (a b : String) : String := if a = b then a else a ++ " SPECDIFF " ++ b
@@ -58,7 +63,7 @@ def fmtOut (plain : Nat) : Out K V → String
   | .ins n d => s!"n={n} d={fmtLogP plain d}"
   | .rem f n d => (if f then "T" else "F") ++ s!" n={n} d={fmtLogP plain d}"
   | .got none => "nil"
-  | .got (some v) => s!"v{v}"
+  | .got (some v) => if v ≥ nullBase then "nil" else s!"v{v}"   -- p_tree_lookup of a pair stored with a NULL value returns NULL
   | .visited ps => "[" ++ " ".intercalate (ps.map fmtPair) ++ "]"
   | .cleared n d => s!"n={n} d={fmtLogP plain d}"
   | .num n => toString n
@@ -87,6 +92,12 @@ def step (s : St) (toks : List String) : IO (St × Bool) := do
     match o.toNat? with
     | none => IO.println "bad-op"; return (s, false)
     | some o => doOp s (.ins (o, s.next) s.next) true
+  | ["insv", o] =>                 -- NULL value
+    match o.toNat? with
+    | none => IO.println "bad-op"; return (s, false)
+    | some o => doOp s (.ins (o, s.next) (nullBase + s.next)) true
+  | ["insk"] => doOp s (.ins (0, nullBase + s.next) s.next) true                 -- NULL key (orders as 0)
+  | ["inskv"] => doOp s (.ins (0, nullBase + s.next) (nullBase + s.next)) true   -- NULL key and NULL value
   | ["rem", o] =>
     match o.toNat? with
     | none => IO.println "bad-op"; return (s, false)
